@@ -4,7 +4,7 @@
     There is no [Extract Constant] and no [Extract Inductive] of our own. *)
 Require Extraction.
 Require ExtrOcamlBasic.
-From Sameold Require Import Base.Bytes Model.Header Model.Combiner Model.IssueTime.
+From Sameold Require Import Base.Bytes Model.Header Model.Combiner Model.IssueTime Model.Events.
 Extraction Language OCaml.
 Set Extraction KeepSingleton.
 Extraction "Extract/model.ml"
@@ -17,4 +17,8 @@ Extraction "Extract/model.ml"
   Header.valid_duration_fields Header.issue_daytime_fields Header.callsign
   Combiner.is_allowed_byte Combiner.bit_vote_detect Combiner.bit_vote_correct
   Combiner.estimate_message Combiner.combine
-  IssueTime.calculate_issue_time IssueTime.is_expired_at IssueTime.day_number.
+  IssueTime.calculate_issue_time IssueTime.is_expired_at IssueTime.day_number
+  Events.event_from Events.event_display Events.event_is_test Events.event_is_unrecognized
+  Events.phen_is_national Events.phen_is_weather Events.phen_brief Events.sig_as_u8 Events.sig_name
+  Events.sig_display_str Events.sig_code_str Events.sig_from
+  Events.originator_from_org_and_call Events.is_national.
